@@ -136,6 +136,65 @@ func distanceLaws() {
 	run.Sample(map[string]any{"law": "DistanceCmp(x,a,b)==bytes.Compare(Distance(x,a),Distance(x,b))", "x": "7f80", "a": "00", "b": "ff01"})
 }
 
+// distanceLawsLong repeats the comparison laws on keys around machine-word boundaries (the
+// short-string grid above never leaves the first word): equal-length strings of 7..33 bytes
+// that agree everywhere except in one or two positions chosen from the word boundaries.
+func distanceLawsLong() {
+	n := 0
+	vals := []byte{0x00, 0x01, 0x80}
+	for _, L := range []int{7, 8, 9, 12, 15, 16, 17, 20, 24, 31, 32, 33} {
+		posSet := map[int]bool{0: true, L - 1: true, L / 2: true}
+		for _, p := range []int{6, 7, 8, 9, 15, 16, 17, 23, 24} {
+			if p < L {
+				posSet[p] = true
+			}
+		}
+		var strs [][]byte
+		seen := map[string]bool{}
+		addStr := func(b []byte) {
+			if !seen[string(b)] {
+				seen[string(b)] = true
+				strs = append(strs, b)
+			}
+		}
+		for p := 0; p < L; p++ {
+			if !posSet[p] {
+				continue
+			}
+			for _, v := range vals {
+				b := bytes.Repeat([]byte{0x5a}, L)
+				b[p] ^= v
+				addStr(b)
+				// a second difference in the last byte: ties in the head decided by the tail
+				b2 := append([]byte{}, b...)
+				b2[L-1] ^= 0x01
+				addStr(b2)
+			}
+		}
+		for _, x := range strs {
+			for _, a := range strs {
+				for _, b := range strs {
+					n++
+					got, want := sign(kademlia.DistanceCmp(x, a, b)), sign(refCmp(x, a, b))
+					if got != want {
+						run.Violate(evid.Violation{Kind: "cmp-disagrees-with-bytes-compare", Site: "DistanceCmp", Detail: fmt.Sprintf("len %d: DistanceCmp(%x,%x,%x)=%d want %d", L, x, a, b, got, want), Witness: []string{evid.Hex(x), evid.Hex(a), evid.Hex(b)}})
+						return
+					}
+					if kademlia.DistanceLt(x, a, b) != (want < 0) || kademlia.DistanceGt(x, a, b) != (want > 0) {
+						run.Violate(evid.Violation{Kind: "lt-gt-disagree", Site: "DistanceLt", Detail: fmt.Sprintf("len %d: x=%x a=%x b=%x", L, x, a, b), Witness: []string{evid.Hex(x), evid.Hex(a), evid.Hex(b)}})
+						return
+					}
+				}
+				if !bytes.Equal(kademlia.Distance(x, a), refDist(x, a)) || kademlia.DistanceLz(x, a) != refLz(refDist(x, a)) {
+					run.Violate(evid.Violation{Kind: "distance-lz", Site: "DistanceLz", Detail: fmt.Sprintf("len %d: x=%x a=%x", L, x, a), Witness: []string{evid.Hex(x), evid.Hex(a)}})
+					return
+				}
+			}
+		}
+	}
+	run.Add("law_cases", n)
+}
+
 type entrySet struct {
 	locus []byte
 	keys  [][]byte
@@ -400,11 +459,12 @@ func dhtNodeQueries() {
 func main() {
 	run = evid.Start("C19", "model_checking")
 	distanceLaws()
+	distanceLawsLong()
 	cacheSubsets()
 	dhtNodeQueries()
 	run.Set("traces_validated_against_impl", run.Get("transitions"))
 	run.Set("exhaustive", true)
 	run.Set("explanation", "states = every subset of the key universes (real caches / DHT nodes built per subset); transitions = (cache, query) pairs each checked for ForEach order, Closest, ForEachCloser, ForEachMatching; law_cases = triples/quadruples of short byte strings for the comparison laws; all executed on the implementation")
-	run.Assume("keys longer than 3 bytes and universes beyond the 10-key/8-key sets")
+	run.Assume("cache keys longer than 3 bytes and universes beyond the 10-key/8-key sets; comparison laws on long keys only for equal-length strings of 7..33 bytes differing at word-boundary positions")
 	run.Finish()
 }
